@@ -15,4 +15,5 @@ func main() {
 	tdcx.Drive(w, o, "C01", func(s string) string { return "(KTdc " + s + ")" })
 	reusex.Drive(w, o, func(s string) string { return "(KReuse " + s + ")" })
 	idx.Drive(w, o, func(s string) string { return "(KId " + s + ")" })
+	idx.DriveBatches(w, o, func(s string) string { return "(KIdB " + s + ")" })
 }
